@@ -1,0 +1,15 @@
+package validator
+
+import "fmt"
+
+// panicAsError converts a recovered panic into an error. Malformed profiles and data reach unchecked type
+// assertions and explicit panics in the parser, the generator and the normalizer: the entry points of the
+// library must report those as errors to the caller.
+func panicAsError(recovered any) error {
+	switch v := recovered.(type) {
+	case error:
+		return v
+	default:
+		return fmt.Errorf("%v", v)
+	}
+}
